@@ -682,6 +682,8 @@ package http2
 //@ # (stated for literals without indexing; the incremental-indexing path goes through addDynamic, whose
 //@ # frame over pooled header fields is too coarse to carry hf across)
 //@ ensures sens: r1 == nil && len(b0) > 0 && c < 32 ==> hf.sensible == ((c & 240) == 16)
+//@ # (that a literal with incremental indexing is never marked sensitive is not proved: addDynamic's frame, family(HeaderField),
+//@ # forgets the caller's field; a seeded change deriving the mark from bit 4 of such a literal, C03-F, is missed)
 //@ # the table's backing array is the one it had or a new one: tables never come to share storage
 //@ ensures place: dynplace(hp)
 
@@ -713,6 +715,10 @@ package http2
 //@ # raw strings: H bit clear, the length as a 7-bit prefix integer, then the octets themselves (RFC 7541 section 5.2)
 //@ ensures rawlen: !encode && len(src) < 2097152 ==> r0[o] < 128 && spec.intVal(r0[o:], 7) == len(src) && spec.intLen(r0[o:], 7) + len(src) == len(r0) - o
 //@ ensures hbit: encode ==> r0[o] >= 128
+//@ # a string flagged as Huffman-coded announces the length of its Huffman coding (the octets follow; that they are the code
+//@ # itself is HuffmanEncode's business): the H bit is never put on raw octets
+//@ ensures hufflen: encode && len(src) < 65536 ==> 8 * spec.intVal(r0[o:], 7) >= spec.hbits(old(src), len(src)) &&
+//@ |   8 * spec.intVal(r0[o:], 7) < spec.hbits(old(src), len(src)) + 8
 
 //@ func (*HPACK).AppendHeader
 //@ props C04 C18 C01 C02
